@@ -24,13 +24,6 @@ theorem checkDH_source_shape :
     Facts.C13.checkDHBitsCond = "p.BitLen() != RSAKeyBits" ∧ Facts.C13.rsaKeyBits = 2048 ∧
       Facts.C13.primeRounds = 64 := by decide
 
-/-- The bounds of `CheckDHParams` are `1`, `dh_prime − 1`, `2^(2048−64)`, `dh_prime − 2^(2048−64)`. -/
-theorem dhBounds_is_spec :
-    Facts.C13.dhBounds = [("one", "big.NewInt(1)"), ("dhPrimeMinusOne", "big.NewInt(0).Sub(dhPrime, one)"),
-      ("safetyRangeMin", "big.NewInt(0).Exp(big.NewInt(2), big.NewInt(RSAKeyBits-64), nil)"),
-      ("safetyRangeMax", "big.NewInt(0).Sub(dhPrime, safetyRangeMin)")] ∧
-    Facts.C13.safetyBase = 2 ∧ Facts.C13.safetyExp = 1984 := by decide
-
 /-- Constants of `DecomposePQ`. -/
 theorem pq_constants :
     Facts.C13.pqMask = 15 ∧ Facts.C13.pqAdd = 17 ∧ Facts.C13.pqRndBits = 64 ∧ Facts.C13.pqLimShift = 18 ∧
@@ -111,14 +104,16 @@ theorem checkDH_negative_refused (isPrime : Int → Bool)
 /-! ### CheckDHParams -/
 
 /-- `CheckDHParams` accepts exactly the values strictly inside `(1, p−1)` (g, g_a, g_b) and strictly
-inside the `2^1984` safety margins (g_a, g_b). -/
+inside the `2^1984` safety margins (g_a, g_b).  The function this is proved about
+(`Facts.C13.checkDHParamsT`, with `Facts.C13.inRangeT`) is **translated from the Go source on every
+run**: which variable each check tests, against which bounds, the comparison directions, the
+definitions of the bounds and the exponent `RSAKeyBits-64` all come from /repo. -/
 theorem checkDHParams_iff (p g ga gb : Int) :
     checkDHParams p g ga gb = none ↔
       (1 < g ∧ g < p - 1) ∧ (1 < ga ∧ ga < p - 1) ∧ (1 < gb ∧ gb < p - 1) ∧
       ((2 : Int) ^ 1984 < ga ∧ ga < p - (2 : Int) ^ 1984) ∧
       ((2 : Int) ^ 1984 < gb ∧ gb < p - (2 : Int) ^ 1984) :=
-  checkDHParams_none_iff (safetyMin_eq dhBounds_is_spec.2.1 dhBounds_is_spec.2.2) (by decide) (by decide)
-    (by decide) p g ga gb
+  checkDHParams_none_iff p g ga gb
 
 /-- Non-vacuity and boundaries: for `p = 4·2^1984`, `g_a = 2^1984 + 1` is accepted, `g_a = 2^1984` and
 `g_a = p − 2^1984` are not. -/
